@@ -160,8 +160,9 @@ CHECKS = {
     "C11": {
         "groups": [
             {"pkg": "Havoc/cmd/server", "with": SRV_WITH, "entries": ["H_c11_append", "H_c11_replay", "H_c11_fanout", "H_c11_fault", "H_c11_listener_prune", "H_c11_disconnect"], "no_native_witness": True, "no_native_replay": True},
+            {"pkg": "Havoc/cmd/server", "with": SRV_WITH, "entries": ["H_c11_race"], "race": True},
         ],
-        "bounds": "append: 0..3 (thorough 0..8) retained events + one event with arbitrary code / one-shot flag; replay: 0..3 retained events, 0..2 agents with symbolic active flag; fan-out: 1..3 (thorough 1..5) clients, any excluded id, at most one dead transport, arbitrary event code; listener pruning: 1..4 (thorough 1..6) retained listener/chat events of 5 kinds; fault: 2..3 sends/broadcasts to two clients with a write fault possible at every write. Disconnect: login, 0..1 messages, then the transport dies with close error 1006 or another read error, closing the socket failing or not.",
+        "bounds": "append: 0..3 (thorough 0..8) retained events + one event with arbitrary code / one-shot flag; replay: 0..3 retained events, 0..2 agents with symbolic active flag; fan-out: 1..3 (thorough 1..5) clients, any excluded id, at most one dead transport, arbitrary event code; listener pruning: 1..4 (thorough 1..6) retained listener/chat events of 5 kinds; fault: 2..3 sends/broadcasts to two clients with a write fault possible at every write. Disconnect: login, 0..1 messages, then the transport dies with close error 1006 or another read error, closing the socket failing or not. Race: two EventAppend calls on a log holding one event, preemption at every shared load/store and mutex operation, at most 2 voluntary switches.",
         "outside": "a peer that stalls without error (needs time); websocket framing; concurrent broadcasters",
         "min_completed": 3,
     },
@@ -245,7 +246,8 @@ LEVELS = {
     "C14": {"text": "Bounded symbolic execution of the real profile loading path - scanner, parser, template evaluation, gohcl schema derivation and decoding, gocty conversion - into the real HavocConfig type, with the engine emulating package reflect over go/types; string contents, port digits, spellings and the kind of single fault are symbolic or enumerated by the solver-explored choices; loaded values are compared with the intended configuration and every faulty profile must yield a placed error diagnostic.",
             "note": "Profile shapes and the 13 fault kinds are fixed in the harness; reflection is emulated (Type/Value subset used by gohcl and gocty), completed symbolic paths are replayed natively with the real reflect package."},
     "C11": {"text": "Bounded symbolic execution of the real event log / replay / fan-out / SendEvent code with the websocket write as a fault-injecting recorder; the fault sequence is a symbolic variable, and a mutex left held after any send is reported by the engine's lock model.",
-            "note": "websocket, JSON encoder and DB are stubs; single-threaded (interleavings of concurrent broadcasters are outside)."},
+            "technique_suffix": "; two recorders of events at the same time explored by a bounded scheduler (<= 2 voluntary switches), confirmed natively under the Go race detector",
+            "note": "websocket, JSON encoder and DB are stubs; apart from H_c11_race (two concurrent EventAppend calls) single-threaded: a recorder racing with the replay to a new operator is outside."},
     "C06": {"text": "Bounded symbolic execution of the real handleRequest/ClientAuthenticate/EventBroadcast decision logic over an arbitrary first Package (the image of json.Unmarshal), with SHA3 as an injective digest.",
             "note": "The JSON decoder is modelled by its result type; sockets and timing are outside; the service endpoint's handshake (authenticate/handleConnection/routine) is executed with the websocket as a script."},
     "C09": {"text": "Bounded symbolic execution of the real link bookkeeping (cmd/server Died/UnlinkFromAll/LinkAdd/LinkRemove, TaskDispatch SMB connect/disconnect) from every forest over a 3-agent universe; the forest invariant relating parent pointers, link lists and link rows is asserted after one event (inductive step).",
